@@ -183,6 +183,8 @@ var metaOpt = Opt{GasEnough: true, NoRAE: true, Direct: true, FixedCaller: true,
 func C08_CreateStoresMetadata() {
 	o := metaOpt
 	o.Small = !verif.Thorough()
+	o.Medium = true
+	o.Thin = verif.Thorough() // the wider argument shapes are the subject; the pre-state is C07's
 	s := scnNFTCreate(o)
 	s.Run()
 	if s.Err != nil {
